@@ -98,7 +98,7 @@ impl Property for C10 {
                 cases: tier.pick(300, 4_000),
                 strat: Arc::new(move || {
                     let st = starts.as_ref().clone();
-                    (proptest::sample::select(st), proptest::collection::vec(prop_oneof![6 => op_cheap(), 1 => Just(Op::Sign(1))], 4..9)).prop_map(|(start, ops)| C10Case { start, ops, sweep: 0, sweep_key: 0, sweep_t0: 0 }).boxed()
+                    (proptest::sample::select(st), proptest::collection::vec(prop_oneof![6 => op_cheap(), 1 => Just(Op::Sign(1)), 2 => proptest::sample::select(vec![0u8, 2, 3]).prop_map(Op::SignNow)], 4..9)).prop_map(|(start, ops)| C10Case { start, ops, sweep: 0, sweep_key: 0, sweep_t0: 0 }).boxed()
                 }),
             },
             Phase::Enumerate {
@@ -186,7 +186,7 @@ fn inner(case: &C10Case, o: &mut Outcome) -> Result<(), (String, String)> {
     let mut nontrivial = false;
     for op in &case.ops {
         match op {
-            Op::Sign(k) => {
+            Op::Sign(k) | Op::SignNow(k) => {
                 if last_sign.is_some() && last_sign != Some(*k) {
                     nontrivial = true;
                     o.label("resigned-with-other-key");
@@ -210,7 +210,7 @@ fn inner(case: &C10Case, o: &mut Outcome) -> Result<(), (String, String)> {
     for (i, op) in case.ops.iter().enumerate() {
         apply_op(&mut pkg, op)?;
         model = match op {
-            Op::Sign(k) => Signer::Key(*k as usize % 4),
+            Op::Sign(k) | Op::SignNow(k) => Signer::Key(*k as usize % 4),
             Op::Clear => Signer::None,
             Op::Reparse => model,
         };
